@@ -196,6 +196,26 @@ func execBufConc(t *trace, script []string) {
 			}
 			time.Sleep(time.Duration(cooldown+300) * time.Microsecond)
 		}
+		// C04: with no further activity everything reclaimable must be reclaimed (bounded by cooldown + latency)
+		reclaimed := 1
+		if !stuck {
+			reclaimable := func() bool {
+				off, l, m := bigbuff.VerifBufferState(b)
+				var rel []int
+				for _, o := range m {
+					rel = append(rel, o-off)
+				}
+				k := cleaner(l, rel)
+				return k > 0 && l > 0
+			}
+			deadline := time.Now().Add(time.Duration(cooldown)*3*time.Microsecond + 2*time.Second)
+			for reclaimable() && time.Now().Before(deadline) {
+				time.Sleep(200 * time.Microsecond)
+			}
+			if reclaimable() {
+				reclaimed = 0
+			}
+		}
 		sl := b.Slice()
 		off, l, _ := bigbuff.VerifBufferState(b)
 		rm()
@@ -210,7 +230,7 @@ func execBufConc(t *trace, script []string) {
 		if len(sl) > 0 {
 			first = sl[0].(int)
 		}
-		t.Line(fmt.Sprintf("final base=%d len=%d first=%d produced=%d", off, l, first, produced.Load()), "ok")
+		t.Line(fmt.Sprintf("final base=%d len=%d first=%d produced=%d reclaimed=%d", off, l, first, produced.Load(), reclaimed), "ok")
 		go b.Close()
 		for _, c := range cons {
 			c.Close()
